@@ -19,7 +19,8 @@ EXTENDS EqContract
 
 CONSTANTS MaxDepth,            \* perturbations per path
           MutDepth,            \* setters are applied to nodes of depth <= MutDepth (moves: to every node)
-          DEV_StaleKeyOnMove   \* deviation: translate_rotate / convert_to_2d keep the cached key
+          DEV_StaleKeyOnMove,  \* deviation: translate_rotate / convert_to_2d keep the cached key
+          DEV_EqSeesDerived    \* deviation: == compares the whole instance dictionary, derived data included
 
 VARIABLES cls, seed, root, par, val, kind, grp, depth,
           mk,      \* kind of the mutator that led here ("" if none)
@@ -34,7 +35,7 @@ Init == /\ cls \in Classes
         /\ par = root /\ val = root /\ kind = "node" /\ grp = "@" \o seed /\ depth = 0
         /\ mk = "" /\ warm = FALSE /\ ckey = <<>> /\ nn = 0
 
-Open == kind \in {"node", "perturb"}          \* reorder and mutate are terminal
+Open == kind \in {"node", "perturb"}          \* reorder, mutate and observe are terminal
 NoMut == UNCHANGED <<mk, warm, ckey, nn>>
 
 Perturb(g, t) == /\ Open /\ depth < MaxDepth
@@ -71,6 +72,12 @@ MutateAdv(st, ar, n, w) ==
 MutateUpd(p, sg, w) ==
   cls \in Advanced /\ Mutate("upd", "update_prediction", [val EXCEPT !["prediction"] = p, !["signal_series"] = sg], w, 0)
 
+(* observed dimension: the read-only queries are run on x only / on x and its twin; the valuation stays.  *)
+(* mk records who was queried; implementation-shaped: a queried instance holds derived data (`derived`)    *)
+Observe(who) == /\ Open
+                /\ par' = val /\ val' = val /\ kind' = "observe" /\ grp' = "observed:" \o who /\ mk' = who
+                /\ UNCHANGED <<cls, seed, root, depth, warm, ckey, nn>>
+ObserveSome == \E who \in Observers : Observe(who)
 PerturbSome == \E g \in GroupsOf(cls) : \E t \in Dom(cls, g) : Perturb(g, t)
 ReorderSome == \E g \in GroupsOf(cls) : \E t \in Dom(cls, g) : Reorder(g, t)
 SetSome     == \E g \in GroupsOf(cls) : \E t \in Dom(cls, g) : \E w \in BOOLEAN : MutateSet(g, t, w)
@@ -80,7 +87,7 @@ MutateRaw(name, w) == IsRaw(cls, name, val) /\ Mutate("raw", name, val, w, 0)
 RawSome     == \E name \in RawNames(cls) : \E w \in BOOLEAN : MutateRaw(name, w)
 AdvSome     == \E st \in {"v1", "v2"} : \E ar \in AdvArgs : \E n \in AdvLengths : \E w \in BOOLEAN : MutateAdv(st, ar, n, w)
 UpdSome     == \E p \in {"v1", "v2", "v3"} : \E sg \in {"d", "v1", "v2"} : \E w \in BOOLEAN : MutateUpd(p, sg, w)
-Next == PerturbSome \/ ReorderSome \/ SetSome \/ MoveSome \/ FlatSome \/ AdvSome \/ UpdSome \/ RawSome
+Next == PerturbSome \/ ReorderSome \/ SetSome \/ MoveSome \/ FlatSome \/ AdvSome \/ UpdSome \/ RawSome \/ ObserveSome
 Spec == Init /\ [][Next]_vars
 
 (* ---- the laws, on every explored node / edge ---- *)
@@ -105,6 +112,10 @@ InvMutate  == kind = "mutate" => /\ ~ExpectedEqD(cls, Before, After)         \* 
 InvCurrent == kind = "mutate" => ImplKey = DescKey(After)                     \* ... and == / hash follow it
 InvMotion  == \A m \in MutKinds : ExpectedEqD(cls, Desc(val, MotBefore(m)), Desc(val, MotAfter(m)))
                                   = ~(m # "set" /\ Displaced(cls, m, val))
+(* observed: what == looks at on the two sides (x was queried; the twin only for "both") *)
+SeenOf(queried) == [key |-> HashKey(val), derived |-> DEV_EqSeesDerived /\ queried]
+InvObserved == kind = "observe" => /\ par = val /\ ExpectedEq(par, val)
+                                   /\ SeenOf(TRUE) = SeenOf(mk = "both")          \* queries never change equality
 (* action properties: what the actions do to the contract *)
 PropPerturb    == [][kind' = "perturb" => ~ExpectedEq(val, val') /\ par' = val]_vars
 PropReorder    == [][kind' = "reorder" => ExpectedEq(val, val') /\ ExpectedEq(root, val) = ExpectedEq(root, val')]_vars
@@ -123,6 +134,8 @@ SetRec == [c \in Classes |-> [g \in GroupsOf(c) |->
 ASSUME PrintT(<<"SETTERS", ToJson(SetRec)>>)
 RawRec == [c \in Classes |-> {<<r[2], r[3], r[4]>> : r \in {q \in RawMut : q[1] = c}}]
 ASSUME PrintT(<<"RAW", ToJson(RawRec)>>)
+ASSUME PrintT(<<"QUERIES", ToJson([c \in Classes |-> Queries(c, 0)])>>)
 Emit == PrintT(<<"CASE", ToJson([cls |-> cls, x |-> par, y |-> val, kind |-> kind, grp |-> grp, seed |-> seed,
-                                 depth |-> depth, mk |-> mk, warm |-> IF warm THEN 1 ELSE 0, n |-> nn])>>)
+                                 depth |-> depth, mk |-> mk, warm |-> IF warm THEN 1 ELSE 0, n |-> nn,
+                                 queries |-> IF kind = "observe" THEN Queries(cls, depth) ELSE {}])>>)
 ==============================================================================
